@@ -616,6 +616,7 @@ def slow_selection(case) -> Result:
         cur = {}                   # peer index -> its latest connection
         ready_since = {}           # Conn -> time its 2001 CEA was fed
         closed_at = {}             # Conn -> time the harness closed it
+        dpr_at = {}                # Conn -> time the harness sent a DPR on it
         pidx = lambda c: int(c.remote.addr[0].rsplit(".", 1)[1]) - 1
 
         def adopt():
@@ -657,6 +658,11 @@ def slow_selection(case) -> Result:
                     closed_at[c] = w.k.now
                     touched.add(i)
                     w.peer_close(c)
+                elif kind == "DPR" and c in ready_since and c not in closed_at and c not in dpr_at:
+                    # the peer asks to disconnect (and gets its DPA) while the callback is still thinking
+                    dpr_at[c] = w.k.now
+                    touched.add(i)
+                    w.feed_msg(c, {"k": "DPR", "host": f"peer{i + 1}.example", "hbh": 0xd00 + half, "e2e": 0xd00 + half})
                 elif kind == "CEA" and c not in ready_since and c not in closed_at:
                     if w.answer_cer(c, 2001, auth=(4,), host=f"peer{i + 1}.example") is not False:
                         ready_since[c] = w.k.now
@@ -679,6 +685,9 @@ def slow_selection(case) -> Result:
                 res.v("C10/ineligible-peer/not-ready/after-slow-selection",
                       f"{desc}: request written at +{f.t - t0:.1f} on connection {c.idx} (peer {pidx(c)}) whose capabilities "
                       f"exchange has not been answered")
+            elif c in dpr_at and dpr_at[c] < f.t:
+                res.v("C10/ineligible-peer/disconnecting/after-slow-selection",
+                      f"{desc}: request written at +{f.t - t0:.1f} on connection {c.idx} (peer {pidx(c)}), which had sent its DPR at +{dpr_at[c] - t0:.1f}")
             elif c in closed_at and closed_at[c] < f.t:
                 res.v("C10/ineligible-peer/closed/after-slow-selection", f"{desc}: request written on a connection closed at +{closed_at[c] - t0:.1f}")
         if not written:
@@ -696,6 +705,8 @@ def slow_selection(case) -> Result:
         chosen_lost = bool(offered) and len(offered[0]) > 1 and \
             (int(sorted(offered[0])[case["pick"] % len(offered[0])][4:].split(".")[0]) - 1) in touched
         res.nontrivial = bool(touched)
+        if dpr_at:
+            res.classes.append("slow-selection:dpr-during-callback")
         res.classes += ["slow-selection", f"slow-selection:chosen-lost:{chosen_lost}",
                         "slow-selection:outcome:" + ("sent" if written else "not-routable"),
                         f"slow-selection:redialled:{len(w.conns) > n}"]
@@ -709,7 +720,7 @@ def slow_selection(case) -> Result:
 def slow_cases(draw):
     n = draw(st.integers(2, 3))
     sleep = draw(st.integers(1, 5))
-    ev = draw(st.lists(st.tuples(st.integers(0, 2 * sleep + 1), st.sampled_from(["LOSE", "LOSE", "CEA"]), st.integers(0, n - 1)),
+    ev = draw(st.lists(st.tuples(st.integers(0, 2 * sleep + 1), st.sampled_from(["LOSE", "LOSE", "CEA", "DPR"]), st.integers(0, n - 1)),
                        min_size=1, max_size=5))
     return {"slow_select": True, "npeers": n, "sleep": sleep, "pick": draw(st.integers(0, 2)),
             "reconnect_wait": draw(st.integers(1, 2)), "events": [list(e) for e in ev]}
@@ -789,7 +800,7 @@ def run(tier, scale=1.0):
     rec = Recorder(PID)
     for d in hyp.pool_run(shard_main, (tier, scale)):
         rec.merge(d)
-    required = {"hop-by-hop:set-by-caller": 1, "request:untyped": 1, "request:no-destination-realm": 1, "destination-host:a-peer": 1, "destination-host:not-a-peer": 1, "answer-vs-timeout": 1, "slow-selection:chosen-lost:True": 1, "slow-selection:outcome:sent": 1, "slow-selection:outcome:not-routable": 1,
+    required = {"slow-selection:dpr-during-callback": 1, "hop-by-hop:set-by-caller": 1, "request:untyped": 1, "request:no-destination-realm": 1, "destination-host:a-peer": 1, "destination-host:not-a-peer": 1, "answer-vs-timeout": 1, "slow-selection:chosen-lost:True": 1, "slow-selection:outcome:sent": 1, "slow-selection:outcome:not-routable": 1,
                 "slow-selection:redialled:True": 1, "send-vs-loss": 1, "equal-hop-by-hop-two-connections": 1, "schedule-exploration": 1, "senders:3": 1, "npeers:4": 1, "napps:3": 1, "select:first": 1, "select:None": 1, "state:waiting-dwa": 1,
                 "state:disconnecting": 1, "state:disconnecting-late-dwa": 1, "state:awaiting": 1, "state:closed": 1, "sends:4": 1}
     return finish(rec, tier=tier, level="exploration", rule=RULE, assumptions=ASSUME, t0=t0,
